@@ -20,6 +20,11 @@ KillOk(L, W, wallms, jsig, jexit) ==
 (* a job that does not care about the polite signal is terminated all the same: told at the deadline, gone (by whatever signal) *)
 (* within the same jitter of a further second                                                                              *)
 StubbornKillOk(L, W, wallms, jsig) == jsig # 0 /\ wallms >= L * 1000 /\ wallms <= (L * 1000) + 2500
+(* a task of a request whose limit is a DUE time: the expectation comes as a kind and, for a kill, a window (ms after the task's own start) *)
+ObservedDueOk(t, o) ==
+  CASE t.kind = "refused"  -> ~o.started
+    [] t.kind = "killed"   -> o.started /\ ~o.marker /\ o.journal /\ o.jsig = 24 /\ o.jrealms >= t.lo /\ o.jrealms <= t.hi
+    [] t.kind = "finished" -> o.started /\ o.marker /\ o.journal /\ o.jsig = 0 /\ o.jexit = 0
 (* one task of a multi-VTODO execution request (limit L s or 0 = none, job time W s, prep = it can be started): *)
 (* what must happen to it whatever the other tasks of the request are - see ExecSeq.tla for the mechanism    *)
 Expected(t) == IF ~t.prep THEN [kind |-> "notrun", at |-> 0]
